@@ -3,7 +3,7 @@
    specification: coq/spec/MmrSpec.v (peaks_spec = roots of the perfect trees over the chunks of the leaf
    list given by the binary expansion of its length, highest first). *)
 From Coq Require Import ZArith List Bool.
-From TF Require Import Word MmrIdxLocal Mmr MmrSpec MmrTerm MmrProofs MmrSmall.
+From TF Require Import Word MmrIdxLocal Mmr MmrSpec MmrTerm MmrProofs MmrSmall MmrUpdates.
 Import ListNotations.
 Open Scope Z_scope.
 
@@ -71,16 +71,20 @@ Theorem C11_bag_peaks_cases : forall (D : Type) (H : D -> D -> D) (hash0 : D),
 Proof. exact bag_peaks_cases. Qed.
 Print Assumptions C11_bag_peaks_cases.
 
-(* verify_batch_update, FULL statement (open: needs the exactness of batch_update_from_leaf_mutation) *)
-Definition C11_verify_batch_update_iff_full : Prop :=
-  forall (D : Type) (H : D -> D -> D) (deq : D -> D -> bool) (dflt : D),
-    (forall x y, deq x y = true <-> x = y) ->
-    forall (ls : list D) (new_peaks appended : list D) (lms : list (leaf_mutation D)),
-      zlength ls + zlength appended < 2 ^ 63 ->
-      distinctb (map (fun lm => fst (fst lm)) lms) = true ->
-      Forall (fun lm => 0 <= fst (fst lm) < zlength ls /\ snd lm = path D H dflt ls (fst (fst lm))) lms ->
-      verify_batch_update D H deq (zlength ls, peaks_spec D H dflt ls) new_peaks appended lms =
-      Some (list_deq D deq (peaks_spec D H dflt (apply_muts D ls (map fst lms) ++ appended)) new_peaks).
+(* verify_batch_update_iff: for distinct in-range indices with valid proofs, batch-update verification
+   returns true exactly when applying the stated mutations and then the stated appends to the current
+   accumulator yields the stated peaks (deq decides equality of digests) *)
+Theorem C11_verify_batch_update_iff : forall (D : Type) (H : D -> D -> D) (deq : D -> D -> bool) (dflt : D),
+  (forall x y, deq x y = true <-> x = y) ->
+  forall (ls new_peaks appended : list D) (ivs : list (Z * D)),
+    zlength ls + zlength appended < 2 ^ 63 ->
+    distinctb (map fst ivs) = true ->
+    Forall (fun m => 0 <= fst m < zlength ls) ivs ->
+    verify_batch_update D H deq (zlength ls, peaks_spec D H dflt ls) new_peaks appended
+                        (map (fun m => (fst m, snd m, path D H dflt ls (fst m))) ivs) =
+    Some (list_deq D deq (peaks_spec D H dflt (apply_muts D ls ivs ++ appended)) new_peaks).
+Proof. exact verify_batch_update_iff. Qed.
+Print Assumptions C11_verify_batch_update_iff.
 
 (* lists with repeated or out-of-range indices are rejected *)
 Theorem C11_rejects_dup_oob : forall (D : Type) (H : D -> D -> D) (deq : D -> D -> bool)
